@@ -110,7 +110,7 @@ Fixpoint mapper_changes (l : list mapper) : bool :=
 Definition class_obs (reqs : list request) (os : list obs) : N :=
   (1 + bN (has_status 200 os) 1 + bN (has_status 400 os) 2 + bN (has_status 405 os) 4
      + bN (has_status 404 os) 8 + bN (has_status 503 os) 16 + bN (has_status 403 os) 32
-     + bN (rewritten reqs os) 64)%N.
+     + bN (rewritten reqs os) 64 + bN (has_status 413 os) 256)%N.
 
 Definition check_route (c : route_case) : result :=
   if negb (rc_accepted c) then
@@ -146,8 +146,8 @@ Record cache_case := {
   cc_accepted : bool }.
 
 Definition dummy_req : request :=
-  {| rq_host := ""; rq_method := ""; rq_path := ""; rq_rawpath := ""; rq_headers := []; rq_ip := "" |}.
-Definition dummy_sv : server := {| sv_filter := None; sv_rules := []; sv_backends := [] |}.
+  {| rq_host := ""; rq_method := ""; rq_path := ""; rq_rawpath := ""; rq_headers := []; rq_ip := ""; rq_body := 0%Z |}.
+Definition dummy_sv : server := {| sv_filter := None; sv_rules := []; sv_backends := []; sv_body := 0%Z |}.
 
 Definition mem_key (k : key) (l : list key) : bool := existsb (key_eqb k) l.
 
@@ -312,7 +312,7 @@ Definition check_cache (pinned : quirks) (c : cache_case) : result :=
      | _ => (1 + bN (Nat.ltb 0 (count_hits pinned c)) 1 + bN (evicted_some c) 2 + bN (negb prop) 4
                + bN (has_status 403 twin) 8 + bN (has_status 200 twin) 16
                + bN (has_status 404 twin || has_status 405 twin) 32 + bN (has_status 400 twin) 64
-               + bN (has_reload c) 128)%N
+               + bN (has_reload c) 128 + bN (has_status 413 twin) 256)%N
      end,
      if prop then 0%N else attribute pinned c).
 
